@@ -182,6 +182,21 @@ def r05_5(ctx, rep):
     kept_by_reference(ctx, rep, "R05.5")
 
 
+@SPEC.rule(
+    "R05.6",
+    "nothing is remembered between requests: tree.flatten and the three backends' generate() use no module-level container and "
+    "no caching decorator — a result kept across calls (keyed by id(tree), by the class name, ...) is served after the tree was "
+    "edited or for another tree, so a sequence of requests no longer equals fresh parses",
+)
+def r05_6(ctx, rep):
+    from .c25 import no_cross_call_state
+    R = "R05.6"
+    for rel, fname in (("src/pymoca/tree.py", "flatten"), ("src/pymoca/tree.py", "flatten_class"),
+                       ("src/pymoca/backends/sympy/generator.py", "generate"), ("src/pymoca/backends/xml/generator.py", "generate"),
+                       ("src/pymoca/backends/casadi/generator.py", "generate")):
+        no_cross_call_state(ctx, rep, R, rel, fname)
+
+
 # -- seeded variants ---------------------------------------------------------
 from ._mut import replace_in_func  # noqa: E402
 
